@@ -1224,6 +1224,15 @@ func (x *Exec) resolveModItem(m *Expr, env *Env, ms *modSet) {
 		case "every":
 			// every(T.f): the whole field heap; every(map[K]V): the whole map heap
 			a := m.Args[0]
+			if a.Kind == EStr {
+				// every("map[K]V"): the whole heap of maps of that type
+				t := x.parseSpecType(a.Name, env.fnPos)
+				if mt, ok := t.ty.Underlying().(*types.Map); ok {
+					ms.whole[x.mapHeapName(mt)] = true
+					return
+				}
+				sfail("modifies every(%q): not a map type", a.Name)
+			}
 			tname := ""
 			if a.Kind == EField && a.Args[0].Kind == EIdent {
 				tname = a.Args[0].Name
